@@ -1,0 +1,126 @@
+//go:build verif
+// +build verif
+
+package server
+
+import (
+	"context"
+	"net"
+	"time"
+
+	"github.com/XiaoMi/Gaea/backend"
+	"github.com/XiaoMi/Gaea/mysql"
+)
+
+// Verification hooks for C38, ownership of the pooled packet buffers: the
+// handshake of a session of the C38 environment (verif_c38.go) in the steps
+// between which another connection's goroutine can run, and a backend that
+// reports the statements it is sent.  Nothing here changes the behaviour of
+// the code under test.
+
+// VerifC38Own is a session whose handshake is run step by step.
+type VerifC38Own struct {
+	*VerifC38Session
+	info HandshakeResponseInfo
+	read bool  // readHandshakeResponse has returned and its result has not been used yet
+	err  error // what it returned
+}
+
+// NewOwnSession is NewSession for a step-by-step session.
+func (e *VerifC38Env) NewOwnSession(co net.Conn) *VerifC38Own {
+	return &VerifC38Own{VerifC38Session: e.NewSession(co)}
+}
+
+// Greet sends the initial handshake packet.
+func (o *VerifC38Own) Greet() error { return o.cc.c.writeInitialHandshakeV10() }
+
+// ReadResponse runs the real ClientConn.readHandshakeResponse and keeps what it
+// returns exactly as returned (no copy), as Session.Handshake does.
+func (o *VerifC38Own) ReadResponse() VerifC38HandshakeResult {
+	info, err := o.cc.c.readHandshakeResponse()
+	o.info, o.read, o.err = info, true, err
+	return VerifC38HandshakeResult{Err: err, Capability: o.cc.c.capability, Collation: int(info.CollationID), User: info.User,
+		Auth: append([]byte{}, info.AuthResponse...), Database: info.Database, AuthPlugin: info.AuthPlugin}
+}
+
+// failed does what Server.onConn does with a failed handshake.
+func (o *VerifC38Own) failed(err error) {
+	if err.Error() != mysql.ErrBadConn.Error() && err.Error() != mysql.ErrResetConn.Error() {
+		o.cc.c.writeErrorPacket(err)
+	}
+}
+
+// Check does what Session.Handshake and Server.onConn do with what
+// ReadResponse returned: for a decoded response the real
+// handleHandshakeResponse, then the OK packet; the error packet of a failed
+// handshake otherwise.  seen is the auth response as the password check finds
+// it; ok is false if there is no unused result of ReadResponse or it was an
+// error.
+func (o *VerifC38Own) Check() (seen []byte, accepted bool, ok bool) {
+	if !o.read {
+		return nil, false, false
+	}
+	o.read = false
+	if o.err != nil {
+		o.failed(o.err)
+		return nil, false, false
+	}
+	seen = append([]byte{}, o.info.AuthResponse...)
+	if err := o.cc.handleHandshakeResponse(o.info); err != nil {
+		o.failed(err)
+		return seen, false, true
+	}
+	o.cc.c.writeOK(o.cc.executor.GetStatus())
+	return seen, true, true
+}
+
+// Handshake runs the real Session.Handshake and, if it fails, sends the error
+// packet Server.onConn sends.
+func (o *VerifC38Own) Handshake() VerifC38HandshakeResult {
+	r := o.VerifC38Session.Handshake()
+	if r.Err != nil {
+		o.failed(r.Err)
+	}
+	return r
+}
+
+// Ephemeral is the bookkeeping of the session's connection (mysql.Conn.VerifEphemeral).
+func (o *VerifC38Own) Ephemeral() (policy int, buf *[]byte) { return o.cc.c.VerifEphemeral() }
+
+// verifC38OwnConn is the accepting backend connection of verif_c38.go that
+// reports every statement.
+type verifC38OwnConn struct {
+	verifC38Conn
+	rec func(sql string)
+}
+
+func (c *verifC38OwnConn) Execute(sql string, maxRows int) (*mysql.Result, error) {
+	c.rec(sql)
+	return c.verifC38Conn.Execute(sql, maxRows)
+}
+func (c *verifC38OwnConn) ExecuteWithTimeout(sql string, maxRows int, _ time.Duration) (*mysql.Result, error) {
+	return c.Execute(sql, maxRows)
+}
+
+type verifC38OwnPool struct {
+	verifC38Pool
+	rec func(sql string)
+}
+
+func (p *verifC38OwnPool) Get(context.Context) (backend.PooledConnect, error) {
+	return &verifC38OwnConn{rec: p.rec}, nil
+}
+func (p *verifC38OwnPool) GetCheck(ctx context.Context) (backend.PooledConnect, error) {
+	return p.Get(ctx)
+}
+
+// SetBackendRecorder makes the in-memory backend of the environment report
+// every statement it is sent to rec (nil: back to the silent backend).
+func (e *VerifC38Env) SetBackendRecorder(rec func(sql string)) {
+	node := e.manager.GetNamespace("verif_c38_ns").slices["slice-0"].Master.Nodes[0]
+	if rec == nil {
+		node.ConnPool = &verifC38Pool{}
+		return
+	}
+	node.ConnPool = &verifC38OwnPool{rec: rec}
+}
